@@ -43,6 +43,12 @@ orig_in, orig_out = Calibration.calibrate_input, Calibration.calibrate_output
 def wrap_in(self, module, input, *a, **k):
     name = getattr(module, "name", None)
     CUR.update(module=name, kind="in")
+    if name is not None and not isinstance(input[0], QBytesTensor) and isinstance(input[0], torch.Tensor) and getattr(module, "activation_qtype", None) is not None:
+        # what this batch must contribute, computed here from the tensor itself (independently of what calibrate_input does)
+        qt = module.activation_qtype
+        qmax = float(torch.iinfo(qt.dtype).max) if not qt.is_floating_point else float(torch.finfo(qt.dtype).max)
+        exp = torch.max(torch.abs(input[0].detach())) / qmax
+        LOG.append({"module": name, "kind": "in_expected", "bits": bits(exp), "dtype": str(exp.dtype).replace("torch.", "")})
     if name is not None and isinstance(input[0], QBytesTensor) and getattr(module, "activation_qtype", None) is not None:
         LOG.append({"module": name, "kind": "in_quantized", "bits": bits(torch.max(input[0]._scale)), "dtype": str(input[0]._scale.dtype).replace("torch.", "")})
     try:
@@ -96,6 +102,11 @@ def build(case, dtype):
 
 def main():
     payload = json.loads(sys.stdin.read())
+    if payload.get("prelude", True):
+        import os as _os
+        sys.path.insert(0, _os.path.dirname(_os.path.abspath(__file__)))
+        from prelude import run_prelude
+        run_prelude()
     out = []
     for case in payload["cases"]:
         LOG.clear()
@@ -115,6 +126,12 @@ def main():
                             x.view(-1)[0] = float(torch.iinfo(torch.int8).max) if case["activations"] == "qint8" else float(torch.finfo(QT[case["activations"]].dtype).max)
                         else:
                             x = (torch.randn(shape, generator=gen) * mag).to(dtype)
+                        if case.get("staging"):
+                            # batches delivered through ONE reused buffer (a pinned / staging tensor overwritten in place for each batch)
+                            if "_buf" not in case:
+                                case["_buf"] = torch.empty(shape, dtype=dtype)
+                            case["_buf"].copy_(x)
+                            x = case["_buf"]
                         nlog = len(LOG)
                         model(x)
                         snap = {}
